@@ -1,8 +1,8 @@
-\* 2 ids: two versions with different members, non-relation members, failing datasource
+\* 2 ids: two versions with different members, non-relation members, failing datasource; request lists of length <= 1
 CONSTANTS
   N = 2
   MaxMem = 1
-  MaxReq = 2
+  MaxReq = 1
   Family = "mixed"
   FlagFamily = "plain"
   WithBad = TRUE
